@@ -42,15 +42,33 @@ class _Counter:
         return False
 
 
+EQ_NOTES = {'frames_not_equal_to_themselves(NaN target)': 0}
+
+
 def _frames_equal(a, b):
     """library equality in both directions AND my own cell-wise reading AND the exact representation"""
     probs = []
     try:
-        if not (a == b) or not (b == a):
+        # `TensorFrame.__eq__` compares the targets with `torch.allclose(other.y, self.y)` (no equal_nan, unlike the
+        # features): a frame whose target holds a NaN is not equal to ITSELF.  For such a frame the library's
+        # verdict says nothing about save/load; the three exact comparisons below still apply (counted, reported).
+        reflexive = bool(a == a) and bool(b == b)
+        if not reflexive:
+            EQ_NOTES['frames_not_equal_to_themselves(NaN target)'] += 1
+        elif not (a == b) or not (b == a):
             probs.append('TensorFrame.__eq__ says the frames differ')
     except Exception as e:
         probs.append(f'TensorFrame.__eq__ raises {type(e).__name__}')
-    if io.cells_frame(a) != io.cells_frame(b):
+    cells = []
+    for x in (a, b):
+        try:
+            cells.append(io.cells_frame(x))
+        except Exception as e:
+            cells.append(f'raises {type(e).__name__}')
+    if isinstance(cells[0], str) or isinstance(cells[1], str):
+        probs.append(f'reading the cells through feat[i, j] raises ({cells[0] if isinstance(cells[0], str) else "ok"} / '
+                     f'{cells[1] if isinstance(cells[1], str) else "ok"})')
+    elif cells[0] != cells[1]:
         probs.append('cells / column names / target differ (cell-wise reading)')
     ca, cb = io.canon_frame(a), io.canon_frame(b)
     if sorted(ca['feats']) != sorted(cb['feats']) or sorted(ca['cols']) != sorted(cb['cols']) or ca['y'] != cb['y']:
@@ -85,21 +103,74 @@ def _has_view(tf):
     return False
 
 
+def _storage_facts(tf):
+    """how the frame that is saved sits in memory: is it a view, how much larger is the storage behind it, is any
+    tensor non-contiguous, rows vs embedding width, longest cell, columns"""
+    out = {'waste': 0, 'noncontig': False, 'rows_gt_width': False, 'max_cols': 0, 'max_width': 0, 'max_cell': 0,
+           'elements': 0, 'unaligned_keys': False, 'equal_total_unaligned_keys': False}
+    for f in tf.feat_dict.values():
+        parts = list(f.values()) if isinstance(f, dict) else [f]
+        if isinstance(f, dict) and len(parts) > 1:
+            o0 = parts[0].offset
+            for p in parts[1:]:
+                if p.offset.shape != o0.shape or not torch.equal(p.offset - p.offset[0], o0 - o0[0]):
+                    out['unaligned_keys'] = True
+                    if p.offset.shape == o0.shape and int(p.offset[-1] - p.offset[0]) == int(o0[-1] - o0[0]):
+                        out['equal_total_unaligned_keys'] = True
+        for p in parts:
+            ts = [p] if isinstance(p, torch.Tensor) else [p.values, p.offset]
+            for t in ts:
+                if t.dtype.is_floating_point and t.numel():
+                    out['inf'] = out.get('inf', False) or bool(torch.isinf(t).any())
+                    out['negzero'] = out.get('negzero', False) or bool((torch.signbit(t) & (t == 0)).any())
+                    if t.dtype == torch.float64:
+                        fin = t[torch.isfinite(t)]
+                        out['f64_only'] = out.get('f64_only', False) or bool((fin.float().double() != fin).any())
+                out['waste'] = max(out['waste'], t.untyped_storage().nbytes() - t.numel() * t.element_size())
+                out['noncontig'] |= not t.is_contiguous()
+                out['elements'] += t.numel()
+            if isinstance(p, torch.Tensor):
+                out['max_cols'] = max(out['max_cols'], p.shape[1] if p.dim() > 1 else 0)
+            else:
+                out['max_cols'] = max(out['max_cols'], p.num_cols)
+                if p.values.dim() == 2:
+                    out['max_width'] = max(out['max_width'], p.values.shape[1])
+                    out['rows_gt_width'] |= p.num_rows > p.values.shape[1] > 0
+                elif p.offset.numel() > 1:
+                    out['max_cell'] = max(out['max_cell'], int((p.offset[1:] - p.offset[:-1]).max()))
+    return out
+
+
+MODEL_ELEMENTS = 400000     # frames with more stored elements are judged by the direct oracle only
+
+
 class C11(core.Check):
     pid = 'C11'
     title = 'Save/load and the materialization cache round-trip losslessly'
     driver = 'drv_c11'
     quick_cases = 900
     thorough_cases = 12000
-    rule = ('three case families, all from the seeded PRNG: (a) TensorFrames built directly (any subset of the 9 stypes '
-            'as keys, 0-8 rows, 1-3 columns per stype, int/float/bool payloads with NaN, optional target) and (b) '
-            'Dataset.materialize() outputs (stub embedder/tokenizer), each put through 0-3 derivations (tf[a:b] incl. '
-            'tf[2:5], tf[[3,1,1]], masks, tf[0:0], torch_frame.cat of derived parts) and saved with hand-made or '
-            'computed col_stats (python / numpy scalars, lists, tuples, tensors, None) -> save -> load; (c) histories of '
-            '3-9 materialize(path) / materialize() calls over 2-5 Dataset objects of 1-2 constructor-argument families '
-            'sharing a temp directory, with interleaved damage/remove of cache files and datasets whose own data frame '
-            'is unusable, then conversion of new data by every materialised dataset. Non-trivial: a round trip of a '
-            'frame with >=1 stored element that loads, or a history with >=1 cache hit; distinct = distinct case hash')
+    rule = ('case families, all from the seeded PRNG: (a) TensorFrames built directly (any subset of the 9 stypes as keys, '
+            '0-10 rows, 1-3 columns per stype; float32/float64/int64/int32/bool payloads with NaN, +-inf, -0.0 and '
+            'float64-only values; tokenizer dicts of 1-4 keys whose per-cell lengths are equal / permuted / shifted '
+            '(equal totals) / independent / empty; optional target incl. NaN; tensors of one frame sharing storage or '
+            'offset objects) and (b) Dataset.materialize() outputs (stub embedder / tokenizer, the tokenizer optionally '
+            'with a further output of different length), each put through 0-3 derivations (tf[a:b] incl. tf[2:5], '
+            'tf[[3,1,1]], masks, tf[0:0], torch_frame.cat of derived parts; for datasets also dataset[rows]'
+            '.materialize(path)) and saved with hand-made col_stats (python / numpy scalars of 10 widths, special '
+            'floats, big ints, bool, str, None, tensors of 8 dtypes and 0-2 dims, numpy arrays, nested lists / tuples / '
+            'dicts, a list of ladder length) or computed ones -> save -> load; (a\') a few percent of the cases are '
+            'frames AT SCALE (harness/stress.py ladder: 17..259 at level 0, ..4099 at level 1, ..65539 at level 2) in '
+            'rows (tall), columns of one container (wide), embedding width or cell length (deep), described by '
+            'dimensions + one seed per container (numpy RandomState), of which a row slice / step slice / index '
+            'selection / slice of a slice and / or a column slice is saved: the saved view stays small enough for the '
+            'Lean model while the storage behind it is up to 64 MiB larger, with fewer / as many / more rows than the '
+            'embedding is wide; (b\') datasets of ladder length whose row slice is written by materialize(path); '
+            '(c) histories of 3-9 (3%: 17-36) materialize(path) / materialize() calls over 2-5 Dataset objects of 1-2 '
+            'constructor-argument families (1.5%: a family of ladder length) sharing a temp directory, with interleaved '
+            'damage/remove of cache files and datasets whose own data frame is unusable, then conversion of new data by '
+            'every materialised dataset. Non-trivial: a round trip of a frame with >=1 stored element that loads, or a '
+            'history with >=1 cache hit; distinct = distinct case hash')
     partial_notes = (
         'TRUNCATION CLAUSE (not a theorem): "a cache file cut short at any point raises" is a fact about '
         "torch.load's zip/pickle reader, not about logic the model contains (a rejected file is the constant "
@@ -116,6 +187,14 @@ class C11(core.Check):
         'load is checked on the real objects only.',
         'determinism of the computation is an explicit hypothesis of cache_equals_fresh; the harness uses '
         'deterministic stub embedders / tokenizers.',
+        'frames at scale: the Lean model receives the frame that is saved (a view of at most ~10^5 stored elements); '
+        'the large parent behind it exists on the real side only. A saved frame above 4*10^5 elements would be judged '
+        'by the direct oracle only (oracle_only_cases; 0 in practice). The cell-by-cell reading through feat[i, j] '
+        'visits every cell up to 6000 cells per container and a fixed sample of rows beyond; the comparison of the '
+        'stored representation (values, offsets, dtypes) is always complete.',
+        'TensorFrame.__eq__ is not reflexive for a frame whose target holds a NaN (allclose without equal_nan): for '
+        'such frames the library equality is not used as a verdict (counted under outside_domain_observations); the '
+        'exact comparisons are.',
     )
     assumptions = ('frames carry no explicit num_rows (a feature-less frame with explicit num_rows is outside C11)',)
 
@@ -126,9 +205,30 @@ class C11(core.Check):
 
     # ------------------------------------------------------------------ generation
     def generate(self, rng, n, tier):
+        from harness import stress
+        lvl = self.level
+        p_big = (.045, .08, .015)[min(lvl, 2)]          # frames / views at scale
+        p_bigds = (.01, .01, .004)[min(lvl, 2)]         # datasets at scale (views written by materialize(path))
         for k in range(n):
             u = rng.random()
-            if u < .62:
+            if u < p_big:
+                spec = io.gen_big_frame(rng, lvl)
+                ops = io.gen_big_derive(rng, spec, lvl)
+                tf_cols = [c for f in spec['feats'] for c in f['cols']]
+                big_stat = stress.pick_size(rng, lvl, 4099) if rng.random() < .3 else None
+                yield {'kind': 'roundtrip', 'base': {'big': spec}, 'derive': ops,
+                       'stats': {'explicit': io.gen_stats(rng, tf_cols, big_stat)}}
+            elif u < p_big + p_bigds:
+                nrows = stress.pick_size(rng, lvl, rng.choice([259, 1027, 4099]))
+                g = io.gen_group(rng, 0, n=nrows)
+                m = rng.choice([1, 5, 17, 33, 65, 129, 257])
+                m = min(m, nrows)
+                a = rng.choice([0, nrows - m, rng.randint(0, nrows - m)])
+                ops = [{'op': 'slice', 'a': a, 'b': a + m}] if rng.random() < .7 else \
+                    [{'op': 'index', 'idx': sorted(rng.sample(range(nrows), m)), 'as': 'list'}]
+                yield {'kind': 'roundtrip', 'base': {'dataset': g}, 'derive': ops, 'stats': {'computed': True},
+                       'via': 'dataset-materialize(path)'}
+            elif u < .62:
                 base = {'direct': io.gen_direct_frame(rng)}
                 R = base['direct']['R']
                 ops, _ = io.gen_derive(rng, R)
@@ -138,20 +238,29 @@ class C11(core.Check):
             elif u < .80:
                 g = io.gen_group(rng, 0)
                 ops, _ = io.gen_derive(rng, g['n'])
-                yield {'kind': 'roundtrip', 'base': {'dataset': g}, 'derive': ops, 'stats': {'computed': True}}
+                case = {'kind': 'roundtrip', 'base': {'dataset': g}, 'derive': ops, 'stats': {'computed': True}}
+                if len(ops) == 1 and ops[0]['op'] in ('slice', 'index') and rng.random() < .5:
+                    case['via'] = 'dataset-materialize(path)'
+                yield case
             else:
                 yield self.gen_history(rng)
 
     def gen_history(self, rng):
+        from harness import stress
+        lvl = self.level
         ng = rng.choice([1, 1, 2])
-        groups = [io.gen_group(rng, g) for g in range(ng)]
+        u = rng.random()
+        long_hist = u < .03                                  # the number of prior calls is a size too
+        big_rows = stress.pick_size(rng, lvl, rng.choice([259, 259, 1027, 4099])) if .03 <= u < .045 else None
+        groups = [io.gen_group(rng, g, n=big_rows if g == 0 else None) for g in range(ng)]
         nd = rng.randint(2, 5)
         dss = [{'group': rng.randrange(ng), 'usable': True if i == 0 else rng.random() < .55} for i in range(nd)]
         paths = {g: [f'g{g}_{k}.pt' for k in range(rng.choice([1, 1, 2]))] for g in range(ng)}
         steps = []
         # the first step writes a cache so that most histories contain hits
         steps.append({'op': 'mat', 'ds': 0, 'path': paths[dss[0]['group']][0]})
-        for _ in range(rng.randint(2, 8)):
+        nsteps = stress.pick_size(rng, 0, 35) if long_hist else (rng.randint(2, 4) if big_rows else rng.randint(2, 8))
+        for _ in range(nsteps):
             u = rng.random()
             if u < .72:
                 i = rng.randrange(nd)
@@ -185,27 +294,46 @@ class C11(core.Check):
     def build_base(self, case):
         import torch_frame  # noqa
         base = case['base']
-        if 'direct' in base:
-            tf = io.build_direct_frame(base['direct'])
+        if 'direct' in base or 'big' in base:
+            tf = io.build_direct_frame(base['direct']) if 'direct' in base else io.build_big_frame(base['big'])
+            if 'direct' in base:
+                self._info['alias'] = list(io.LAST_BUILD['alias'])
             stats = io.build_stats(case['stats'].get('explicit'))
             return tf, stats
         ds = io.make_dataset(base['dataset'])
         io.quiet(ds.materialize)
+        self._base_ds = ds
         return ds.tensor_frame, ds.col_stats
+
+    def derive_and_save(self, case, tf0, stats, path):
+        """-> the frame that is written.  Either `torch_frame.save(view, stats, path)` or, for a dataset, the same
+        through the public route `dataset[rows].materialize(path=...)` (a materialised dataset given a new path)."""
+        import torch_frame
+        if case.get('via') == 'dataset-materialize(path)':
+            op = case['derive'][0]
+            sub = self._base_ds[op['a']:op['b']] if op['op'] == 'slice' else self._base_ds[list(op['idx'])]
+            tf = sub.tensor_frame
+            return tf, (lambda: sub.materialize(path=path))
+        tf = io.apply_derive(tf0, case['derive'])
+        return tf, (lambda: torch_frame.save(tf, stats, path))
 
     def real_roundtrip(self, case, tmp):
         import torch_frame
         F = self._findings
         tf0, stats = self.build_base(case)
-        tf = io.apply_derive(tf0, case['derive'])
+        path = os.path.join(tmp, 'tf.pt')
+        tf, do_save = self.derive_and_save(case, tf0, stats, path)
         self._info['view'] = _has_view(tf)
         self._info['rows'] = len(tf)
+        self._info['facts'] = _storage_facts(tf)
         before = (io.canon_frame(tf), io.canon_stats(stats))
-        self._reqs[core.stable_hash(case)] = [{'cmd': 'roundtrip', 'frame': before[0], 'stats': before[1]}]
-        path = os.path.join(tmp, 'tf.pt')
+        too_big = self._info['facts']['elements'] > MODEL_ELEMENTS
+        self._info['oracle_only'] = too_big
+        self._reqs[core.stable_hash(case)] = [] if too_big else \
+            [{'cmd': 'roundtrip', 'frame': before[0], 'stats': before[1]}]
         out = {'wf': True}
         try:
-            io.quiet(torch_frame.save, tf, stats, path)
+            io.quiet(do_save)
         except Exception as e:
             F.append(('save-raises', f'torch_frame.save raises {type(e).__name__}: {e}', 'a file', 'raises'))
             return {'save': 'raises'}
@@ -407,7 +535,9 @@ class C11(core.Check):
             return self._reqs.pop(h)
         if case['kind'] == 'roundtrip':
             tf0, stats = self.build_base(case)
-            tf = io.apply_derive(tf0, case['derive'])
+            tf, _ = self.derive_and_save(case, tf0, stats, os.devnull)
+            if _storage_facts(tf)['elements'] > MODEL_ELEMENTS:
+                return []
             return [{'cmd': 'roundtrip', 'frame': io.canon_frame(tf), 'stats': io.canon_stats(stats)}]
         fresh = {}
         for g in case['groups']:
@@ -428,6 +558,8 @@ class C11(core.Check):
         return [{'cmd': 'history', 'datasets': dss, 'steps': steps}]
 
     def model_outcome(self, case, replies):
+        if not replies:
+            return core.SKIP_MODEL
         return replies[0]
 
     # ------------------------------------------------------------------ oracle & bookkeeping
@@ -461,7 +593,8 @@ class C11(core.Check):
     def classify(self, case, out):
         labs = ['kind:' + case['kind']]
         if case['kind'] == 'roundtrip':
-            labs.append('base:' + ('direct' if 'direct' in case['base'] else 'dataset'))
+            labs.append('base:' + ('direct' if 'direct' in case['base'] else 'big' if 'big' in case['base'] else 'dataset'))
+            labs += self._scale_labels(case)
             labs.append('stats:' + ('computed' if 'computed' in case['stats'] else
                                     'None' if case['stats']['explicit'] is None else 'hand-made'))
             labs += ['derive:' + l for l in io.derive_labels(case['derive'])] or ['derive:none']
@@ -475,10 +608,25 @@ class C11(core.Check):
             if isinstance(out.get('load'), dict):
                 fr = out['load']['ok']['frame']
                 labs += [f'stype:{s}' for s, _ in fr['feats']]
+                for _, f in fr['feats']:
+                    for d in ([f['t']] if f['k'] == 'dense' else [m for _, m in f['items']] if f['k'] == 'dict' else [f]):
+                        labs.append(f"dtype:{f['k']}:{d['dtype']}")
+                if fr['y'] is not None:
+                    labs.append(f"dtype:y:{fr['y']['dtype']}")
                 labs += sorted({f'storage:{f["k"]}' for _, f in fr['feats']})
                 labs.append('target:' + ('none' if fr['y'] is None else 'yes'))
         else:
             labs.append(f'datasets:{len(case["datasets"])}')
+            ns = len(case['steps'])
+            labs.append('steps:' + (str(ns) if ns < 10 else '10-16' if ns < 17 else '17+'))
+            if ns >= 17:
+                labs.append('scale:prior-calls:17+')
+            rows = max(g['n'] for g in case['groups'])
+            for lo in (17, 257, 4097):
+                if rows >= lo:
+                    labs.append(f'scale:cached-dataset-rows:{lo}+')
+            if any(g.get('tok_extra') and any(c['stype'] == 'text_tokenized' for c in g['cols']) for g in case['groups']):
+                labs.append('tokenizer:outputs-of-different-lengths')
             labs.append(f'groups:{len(case["groups"])}')
             labs.append('cache-hits:' + str(min(self._info.get('hits', 0), 3)) + ('+' if self._info.get('hits', 0) > 3 else ''))
             if 'compute-raises' in self._info:
@@ -495,6 +643,86 @@ class C11(core.Check):
             labs.append('restored-converters:' + str(sum(1 for d, r in zip(case['datasets'], out['datasets'])
                                                          if r is not None and not d['usable'])))
         return labs
+
+    @staticmethod
+    def _stat_types(spec, acc, depth=0):
+        if not isinstance(spec, dict):
+            return
+        if 'py' in spec:
+            v = spec.get('v')
+            acc.add('stat-value:py-' + ('bigint' if spec['py'] == 'int' and abs(v) >= 2 ** 63 else spec['py']))
+        elif 'np' in spec:
+            acc.add('stat-value:np.' + spec['np'])
+        elif 'tensor' in spec:
+            acc.add(f"stat-value:tensor-{spec['tensor']['dtype']}")
+            acc.add(f"stat-value:tensor-shape-{spec['tensor'].get('shape', '1d')}")
+            if len(spec['tensor']['data']) >= 17:
+                acc.add('scale:statistic-length:17+')
+            if len(spec['tensor']['data']) >= 257:
+                acc.add('scale:statistic-length:257+')
+        elif 'ndarray' in spec:
+            acc.add(f"stat-value:ndarray-{spec['ndarray']['dtype']}")
+            if len(spec['ndarray']['data']) >= 17:
+                acc.add('scale:statistic-length:17+')
+        else:
+            for kind in ('list', 'tuple', 'dict'):
+                if kind in spec:
+                    acc.add(f'stat-value:{kind}' + ('-nested' if depth else ''))
+                    items = spec[kind]
+                    if len(items) >= 17:
+                        acc.add('scale:statistic-length:17+')
+                    if len(items) >= 257:
+                        acc.add('scale:statistic-length:257+')
+                    for it in items[:40]:
+                        C11._stat_types(it[1] if kind == 'dict' else it, acc, depth + 1)
+
+    def _scale_labels(self, case):
+        labs = []
+        facts = self._info.get('facts') or {}
+        rows = self._info.get('rows', 0)
+        base = case['base']
+        parent = base['big']['R'] if 'big' in base else base['dataset']['n'] if 'dataset' in base else base['direct']['R']
+        for lo in (17, 257, 4097, 65537):
+            if rows >= lo:
+                labs.append(f'scale:saved-rows:{lo}+')
+            if parent >= lo:
+                labs.append(f'scale:parent-rows:{lo}+')
+        for lo, nm in ((1 << 16, '64KiB'), (1 << 20, '1MiB'), (1 << 24, '16MiB')):
+            if facts.get('waste', 0) >= lo:
+                labs.append(f'view:storage-behind-it-larger-by>={nm}')
+        if facts.get('noncontig'):
+            labs.append('view:non-contiguous-tensor')
+        if facts.get('rows_gt_width'):
+            labs.append('embedding:rows>width')
+        elif facts.get('max_width'):
+            labs.append('embedding:rows<=width')
+        if facts.get('rows_gt_width') and facts.get('waste', 0) >= (1 << 20):
+            labs.append('view:embedding-rows>width-of-parent-larger-by>=1MiB')
+        for key, nm in (('max_cols', 'columns-of-a-container'), ('max_width', 'embedding-width'),
+                        ('max_cell', 'cell-length')):
+            for lo in (17, 257, 4097):
+                if facts.get(key, 0) >= lo:
+                    labs.append(f'scale:{nm}:{lo}+')
+        if facts.get('unaligned_keys'):
+            labs.append('tokenized:outputs-with-different-cell-lengths')
+        if facts.get('equal_total_unaligned_keys'):
+            labs.append('tokenized:different-cell-lengths-equal-total')
+        for key, nm in (('inf', 'values:inf'), ('negzero', 'values:-0.0'), ('f64_only', 'values:not-representable-in-float32')):
+            if facts.get(key):
+                labs.append(nm)
+        if case.get('via'):
+            labs.append('via:' + case['via'])
+        for a in self._info.get('alias', []):
+            labs.append('alias:' + a)
+        if self._info.get('oracle_only'):
+            labs.append('oracle-only:too-big-for-the-model')
+        if 'big' in base:
+            labs.append('big-shape:' + base['big'].get('shape', '?'))
+        acc = set()
+        for col, d in ((case['stats'].get('explicit') or {}).items() if isinstance(case['stats'].get('explicit'), dict) else ()):
+            for v in d.values():
+                self._stat_types(v, acc)
+        return labs + sorted(acc)
 
     # ------------------------------------------------------------------ fault enumeration (truncation)
     def extra_checks(self, rng, tier, report):
@@ -578,6 +806,10 @@ class C11(core.Check):
                     'feature-less TensorFrame({}, {}, num_rows=5) after save/load has num_rows': int(e1.num_rows)}
             except Exception as e:
                 report['extra']['outside_domain_observations'] = {'feature-less frame': f'raises {type(e).__name__}'}
+            report['extra'].setdefault('outside_domain_observations', {})[
+                'TensorFrame.__eq__ is not reflexive when the target y holds a NaN (torch.allclose without equal_nan); '
+                'comparisons of such frames in this run, judged by the exact comparisons only'] = \
+                EQ_NOTES['frames_not_equal_to_themselves(NaN target)']
             main = results[0]
             report['extra']['truncation'] = {
                 'method': 'enumeration (fault injection on the implementation), not proof',
